@@ -11,7 +11,7 @@ RULE = ("A: TLC grid - File Data PDUs for all 128 header configurations x 2 para
 
 def events(ctx):
     rng = ctx.rng
-    for _ in range(ctx.q(5000, 200000)):
+    for _ in range(ctx.q(15000, 600000)):
         cfg = rnd_cfg(rng)
         cfg["segctrl"] = rng.randrange(2)
         over = rng.random() < 0.05
